@@ -18,6 +18,7 @@ const ruleC06 = "model-based state machine with a failure-rich mix (deletes of a
 func c06Profile() *sm.Profile {
 	return &sm.Profile{
 		Name:        "c06",
+		FaultRate:   12,
 		Colls:       []string{"A", "AB", "a"},
 		IndexFields: []string{"x", "xy", "n", "n.a", "s", "t", "u", "_id", "y"},
 		Doc:         gen.DocCfg{Val: gen.ValCfg{MaxDepth: 1, NonUTF8: true}, PAbsent: 4, ExpiresAt: true},
